@@ -31,12 +31,19 @@ Clauses decided here on the implementation's answer:
           D^-1 A, S^-1 is a sub-block of the permuted inverse, so the first column c of S has
           max|c_i| >= 1/||S^-1||_inf >= 1/||(D^-1 A)^-1||_inf >= 1e-3: the scaled pivot the code tests is the
           largest scaled entry of that column, three orders of magnitude above any tolerance <= 1e-6.
- 4. non-square A, rhs of another length, the empty system, inconsistent nested rows: an error; a panic
-    is a failure for every `gauss` request.
+ 4. non-square A, rhs of another length, the empty system, inconsistent nested rows: an error (of any kind: the
+    statement does not name it, the kind is compared with the model only); a panic is a failure for every `gauss`
+    request.
  5. `back` / `forward`: when the call is inside its precondition (1 <= size for back; size <= both matrix
     dimensions and both slice lengths) it must not panic; with a non-zero diagonal the answer satisfies the
     triangular system in the form of clause 1, T = the triangle the routine is specified to read (the other
-    triangle may hold anything), and entries of the slice beyond `size` are untouched.
+    triangle may hold anything: NaN and infinities are put there).
+
+The harness adds to clause 5: the same call on a buffer already used by another call and on a buffer full of -inf must give
+the same bits as on the NaN-filled one (the result may not depend on the previous contents of the output slice).
+
+Clauses 1-3 and 5 use a purely relative rounding model; they are not asserted when an input magnitude lies outside
+2^-340 .. 2^340 (subnormal / near-overflow systems are generated, and compared with the model only).
 
 "identically for every accepted container type" is decided inside the harness (every other container kind
 that can hold the numbers is called on the same request; any difference is a FAIL verdict).
@@ -55,13 +62,31 @@ RULE = ("exhaustive: all 625 2x2 matrices over -2..2 x 4 right-hand sides x tol 
         "thin integer products); pivot ties; triangular systems (with garbage in the other triangle, leading "
         "sub-systems, panicking calls). Each gauss request is also run through every other container kind that can "
         "hold its numbers (nested Vec of f64 owned/borrowed, &Arr2D<f64>, &Vec<Vec<i32>>, &Arr2D<i32>, &Vec<Vec<f32>>, "
-        "&Arr2D<f32>). non-trivial = the model answers with a solution vector of length >= 1 or refuses as singular "
+        "&Arr2D<f32>, &Vec<Vec<u8>>, &Arr2D<u8>). Hardening families: nested vectors of every row-length tuple 0..4 for 2..4 rows; "
+        "u8 matrices; every order 11..40 (48, 64 thorough) incl. triangular solves; rows scaled by 2^+-70 / 2^+-200, whole system "
+        "at 2^-250..2^250, column scalings, tiny/huge/mixed right-hand sides, one tiny + one huge row, single entries 2^-60..2^-20; "
+        "graded / already reduced columns (tail 10^-1..10^-17 of the head); last scaled pivot 10^-1..10^-17; scaled pivot equal to a "
+        "dyadic tolerance; subnormal / near-overflow systems (correspondence only); sign patterns (all negative, negative row / "
+        "column maxima), triangular / diagonal / permutation inputs with signed zeros, right-hand sides with leading / trailing "
+        "zeros and unit vectors; near ties 1 +- 10^-t in the pivot column; NaN / inf in A, b, tol (correspondence only); "
+        "triangular solves with NaN / inf / 1e300 in the triangle that must not be read, each repeated on a used buffer and on a "
+        "buffer of -inf; larger non-square shapes and wrong rhs lengths at orders 10 and 40. non-trivial = the model answers with a solution vector of length >= 1 or refuses as singular "
         "(shape errors and panics are trivial); distinct = distinct request lines")
 
 U = Fraction(1, 2 ** 53)
 C_BOUND = 2 ** 10
 TOL_ROUNDING = Fraction(1e-12)            # "above rounding level": the f64 nearest 1e-12 (it is below 10^-12)
 TOL_ACCEPT = Fraction(1e-6)
+# The rounding model of clauses 1-3 and 5 (relative errors only) holds as long as nothing under- or overflows:
+# every non-zero input magnitude within 2^-340 .. 2^340 keeps each product/quotient of three of them inside the
+# normal range.  Systems outside (subnormal / near-overflow entries) are generated too, but only the discrete
+# clauses (shape errors, no panic) and the comparison with the model apply to them.
+SAFE_LO = Fraction(1, 2 ** 340)
+SAFE_HI = Fraction(2 ** 340)
+
+
+def in_safe_range(values):
+    return all(v == 0 or SAFE_LO <= abs(v) <= SAFE_HI for v in values)
 
 _cache = {}
 _MISS = object()
@@ -130,8 +155,42 @@ def parse_answer(ans):
 
 # ------------------------------------------------------------------ exact linear algebra
 
+_PRIMES = (2 ** 61 - 1, 2 ** 89 - 1)
+
+
+def _det_mod(A, p):
+    """determinant modulo the prime p of the integer matrix obtained by multiplying every row of the dyadic matrix
+    A by a power of two (zero <=> det(A) = 0 mod p)"""
+    n = len(A)
+    M = []
+    for row in A:
+        den = max(x.denominator for x in row)
+        M.append([(x.numerator * (den // x.denominator)) % p for x in row])
+    for k in range(n):
+        piv = next((r for r in range(k, n) if M[r][k]), None)
+        if piv is None:
+            return 0
+        M[k], M[piv] = M[piv], M[k]
+        inv = pow(M[k][k], p - 2, p)
+        Mk = M[k]
+        for r in range(k + 1, n):
+            f = M[r][k] * inv % p
+            if f:
+                Mr = M[r]
+                for c in range(k + 1, n):
+                    Mr[c] = (Mr[c] - f * Mk[c]) % p
+    return 1
+
+
+def probably_singular(A):
+    """False = certainly non-singular (a non-zero determinant modulo a prime is a proof); True = singular modulo two
+    large primes (exactly singular, up to a chance of about 2^-150)"""
+    return all(_det_mod(A, p) == 0 for p in _PRIMES)
+
+
 def singular(A):
-    """exact: rank < n (fraction elimination with any non-zero pivot)"""
+    """exact: rank < n (closed forms up to order 3; above, a non-zero determinant modulo a prime proves regularity,
+    otherwise fraction elimination with any non-zero pivot decides)"""
     n = len(A)
     if n == 1:
         return A[0][0] == 0
@@ -140,6 +199,8 @@ def singular(A):
     if n == 3:
         (a, b, c), (d, e, f), (g, h, i) = A
         return a * (e * i - f * h) - b * (d * i - f * g) + c * (d * h - e * g) == 0
+    if n > 6 and not probably_singular(A):
+        return False
     M = [row[:] for row in A]
     for k in range(n):
         p = next((r for r in range(k, n) if M[r][k] != 0), None)
@@ -209,6 +270,8 @@ def certified_well_conditioned(A):
     scale = [max(abs(x) for x in row) for row in A]
     if any(sc == 0 for sc in scale):
         return None
+    if n > 6 and probably_singular(A):
+        return None                       # no certificate (and no exact inversion of a large singular matrix)
     nrm = inv_norm_inf([[x / sc for x in row] for row, sc in zip(A, scale)])
     if nrm is not None and nrm <= KAPPA_MAX:
         return "row-equilibrated inverse norm %.3g" % float(nrm)
@@ -246,6 +309,8 @@ def gauss_oracle(h, w, A, b, tol, ans, want_ratio=False):
         return "gaussian_elimination panicked"
     if kind == "?":
         return "unreadable answer: " + ans[:60]
+    # (the statement asks for "errors rather than panics" and for a refusal "with an error": WHICH error is compared
+    #  with the model only, a change of kind alone is not a violation of the property)
     if h != w:
         return None if kind == "err" else "non-square matrix (%dx%d) was not refused" % (h, w)
     if len(b) != h:
@@ -255,6 +320,8 @@ def gauss_oracle(h, w, A, b, tol, ans, want_ratio=False):
         return None if kind == "err" else "the empty system was not refused"
     if any(x is None for row in A for x in row) or any(x is None for x in b) or tol is None:
         return None                       # NaN / inf inputs are outside the property
+    if not in_safe_range([x for row in A for x in row] + list(b)):
+        return None                       # under-/overflow possible: the rounding model does not apply
     if kind == "ok":
         x = payload
         if len(x) != n:
@@ -283,7 +350,7 @@ def gauss_oracle(h, w, A, b, tol, ans, want_ratio=False):
     return None
 
 
-def subst_oracle(back, h, w, A, size, b, ns, ans):
+def subst_oracle(back, h, w, A, size, b, ns, ans, want_ratio=False):
     kind, payload = parse_answer(ans)
     inside = size <= h and size <= w and size <= len(b) and size <= ns and (size >= 1 or not back)
     if kind == "panic":
@@ -296,17 +363,22 @@ def subst_oracle(back, h, w, A, size, b, ns, ans):
     if len(x) != ns:
         return "solution slice changed length"
     # the harness hands over a slice pre-filled with NaN (a routine that leaves an entry unwritten, relying on
-    # a zeroed buffer, then shows): entries beyond `size` must still be NaN
-    if any(x[k] is not None for k in range(size, ns)):
-        return "entries of the solution slice beyond `size` were modified"
-    if any(A[i][j] is None for i in range(size) for j in range(size)) or any(v is None for v in b):
+    # a zeroed buffer, then shows).  What happens to entries beyond `size` is not part of the statement (compared
+    # with the model only).
+    cols = (lambda i: range(i, size)) if back else (lambda i: range(0, i + 1))
+    # only the triangle the routine is specified to read counts (the other one may hold NaN or infinities)
+    tri = [A[i][j] for i in range(size) for j in cols(i)]
+    if any(v is None for v in tri) or any(v is None for v in b[:size]):
         return None
     if any(A[i][i] == 0 for i in range(size)):
         return None                       # zero diagonal: division by zero, outside the clause
+    if not in_safe_range(tri + list(b[:size])):
+        return None                       # under-/overflow possible: the rounding model does not apply
     if any(v is None for v in x[:size]):
         return "solution contains NaN/inf on a triangular system with non-zero diagonal"
-    cols = (lambda i: range(i, size)) if back else (lambda i: range(0, i + 1))
     q = residual_ratio([A[i] for i in range(size)], cols, x, b, max(size, 1))
+    if want_ratio:
+        return q
     if q is None or q > C_BOUND:
         return "triangular solve: an equation has |t_i.x - b_i| > 2^10 n u (|t_i|_1 |x|_inf + |b_i|)"
     return None
@@ -349,9 +421,53 @@ def oracle(req, impl):
 
 # ------------------------------------------------------------------ correspondence
 
+def _both_backward_stable(req, impl, model):
+    """both answers are solutions in the sense of the property (exact backward-error test of clause 1 / 5): what
+    separates them is the conditioning of the system, not the algorithm"""
+    try:
+        cmd = req[:req.index(" ")]
+        qs = []
+        for ans in (impl, model):
+            if cmd in ("gauss", "gaussjag"):
+                h, w, A, b, tol, jag = _parse_gauss(req)
+                if jag or h != w or len(b) != h or h == 0:
+                    return False
+                if any(x is None for row in A for x in row) or any(x is None for x in b):
+                    return False
+                if not in_safe_range([x for row in A for x in row] + list(b)):
+                    return False
+                kind, x = parse_answer(ans)
+                if kind != "ok" or len(x) != h or any(v is None for v in x):
+                    return False
+                qs.append(residual_ratio(A, lambda i: range(h), x, b, h))
+            else:
+                rd = Rd(req.split(), 1)
+                h, w, A = rd.mat(); size = rd.nat(); b = rd.vec(); ns = rd.nat()
+                if subst_oracle(cmd == "back", h, w, A, size, b, ns, ans) is not None:
+                    return False
+                q = subst_oracle(cmd == "back", h, w, A, size, b, ns, ans, want_ratio=True)
+                if not isinstance(q, Fraction):
+                    return False
+                qs.append(q)
+        return all(q is not None and q <= C_BOUND for q in qs)
+    except Exception:
+        return False
+
+
 def compare(req, impl, model):
     """outcome kinds exactly; solution vectors numerically: bit-equal / both NaN / equal infinities, or
-    |a-b| <= 1e-9 * max(|impl|_inf, |model|_inf) (on the unmodified tree they are bit-identical)"""
+    |a-b| <= 1e-9 * max(|impl|_inf, |model|_inf) (on the unmodified tree they are bit-identical); a larger difference
+    is accepted when BOTH vectors pass the property's exact backward-error test (an ill-conditioned system amplifies a
+    harmless re-association of the floating-point sums beyond any fixed envelope)"""
+    if impl == model:
+        return None
+    r = _compare_strict(req, impl, model)
+    if r is not None and r.startswith("component") and _both_backward_stable(req, impl, model):
+        return None
+    return r
+
+
+def _compare_strict(req, impl, model):
     if impl == model:
         return None
     ti, tm = impl.split(), model.split()
